@@ -25,6 +25,7 @@ type runStats struct {
 	SlowCalls int                       `json:"slow_calls"`
 	WallS     float64                   `json:"wall_s"`
 	Samples   []string                  `json:"samples"`
+	Counters  map[string]int            `json:"counters"`
 }
 
 type failRec struct {
@@ -153,6 +154,7 @@ func cmdRun(args []string) {
 		}
 	}
 	st.Distinct = len(seen)
+	st.Counters = counters
 	st.WallS = time.Since(start).Seconds()
 	wo.Flush()
 	wi.Flush()
